@@ -50,6 +50,10 @@
  *   csm:<i>           the client's CSM arrives (session becomes ESTABLISHED)
  *   get:<i>:<r|h|a>   GET /r (plain), /h (handler keeps an application reference), /a (async
  *                     entry, answered 2 s later)
+ *   part:<i>:<n>      the first n bytes (1..33) of a 34-byte request arrive (3-byte header with
+ *                     extended length, 8-byte token, options, 20-byte payload): a message cut
+ *                     inside the header / token / body
+ *   rest:<i>          the remaining bytes of that request arrive
  *   close:<i>         the peer closes the connection (read error): the session goes to NONE
  *   ref:<i> rel:<i> relall adv:<ms> prep free     as above
  *   extra trace tokens: A:<key>:<now> (accept, key = 1000 + i), R:<sid>:<now> (bytes read),
@@ -906,6 +910,8 @@ static size_t t_len, t_pos;
 static int t_eof;
 static coap_socket_t *t_rd = NULL;       /* socket the arrival is for */
 static char t_path[108];
+static uint8_t t_rest[MAXC][40];          /* undelivered tail of a request cut by part:<i>:<n> */
+static size_t t_restlen[MAXC];
 
 static coap_session_t *t_sess(int i) {
   return t_hp[i] ? (coap_session_t *)(t_hp[i] ^ VA_HIDE) : NULL;
@@ -1060,6 +1066,7 @@ static void run_stream_history(void) {
   t_cur = -1;
   memset(t_hp, 0, sizeof(t_hp));
   memset(t_refs, 0, sizeof(t_refs));
+  memset(t_restlen, 0, sizeof(t_restlen));
   for (int i = 0; i < MAXC; i++) t_fd[i] = -1;
   memset(app_refs, 0, sizeof(app_refs));
   memset(app_sess, 0, sizeof(app_sess));
@@ -1129,6 +1136,36 @@ static void run_stream_history(void) {
       if (i >= 0 && i < MAXC) {
         g[2] = (uint8_t)(0xa0 + i);
         st_deliver(i, g, sizeof(g), 0);
+      }
+    } else if (!strncmp(op, "part:", 5)) {
+      int i = atoi(op + 5);
+      char *c = strchr(op + 5, ':');
+      size_t n = c ? (size_t)atoi(c + 1) : 5;
+      if (i >= 0 && i < MAXC && t_restlen[i] == 0) {
+        uint8_t m[34];
+        size_t k = 0;
+        m[k++] = 0xD8;                 /* Len nibble 13 (extended), TKL 8 */
+        m[k++] = 23 - 13;              /* options + payload = 23 bytes */
+        m[k++] = COAP_REQUEST_CODE_GET;
+        for (int j = 0; j < 8; j++) m[k++] = (uint8_t)(0xc0 + i + j);
+        m[k++] = 0xb1;
+        m[k++] = 'r';
+        m[k++] = 0xff;
+        for (int j = 0; j < 20; j++) m[k++] = (uint8_t)('a' + j);
+        if (n < 1) n = 1;
+        if (n > sizeof(m) - 1) n = sizeof(m) - 1;
+        memcpy(t_rest[i], m + n, sizeof(m) - n);
+        t_restlen[i] = sizeof(m) - n;
+        st_deliver(i, m, n, 0);
+      }
+    } else if (!strncmp(op, "rest:", 5)) {
+      int i = atoi(op + 5);
+      if (i >= 0 && i < MAXC && t_restlen[i]) {
+        uint8_t m[40];
+        size_t n = t_restlen[i];
+        memcpy(m, t_rest[i], n);
+        t_restlen[i] = 0;
+        st_deliver(i, m, n, 0);
       }
     } else if (!strncmp(op, "close:", 6)) {
       int i = atoi(op + 6);
